@@ -207,6 +207,7 @@ type op07 struct {
 	HasBoom  bool // the value contains an armed panicking Simplifier
 	Keep     bool // the caller leaves the Writer's options as they are (the previous call's; Opt/Limit/Mode hold their resolved values for the fresh instance)
 	BadOpt   bool // an argument of an unsupported type follows the other options (the call is rejected before it parses)
+	ChanCap  int  // channel mode: capacity of the result channel, served by the simulator's consumer (sim.ConsumeBounded); -1: room for every document
 }
 
 func (o *op07) String() string {
@@ -220,6 +221,9 @@ func (o *op07) String() string {
 		fmt.Fprintf(&b, " input=%q mode=%d conv=%d reuse=%v onlyOne=%v", in, o.Mode, o.Conv, o.Reuse, o.OnlyOne)
 		if o.BadOpt {
 			b.WriteString(" +unsupported option argument")
+		}
+		if o.ChanCap >= 0 {
+			fmt.Fprintf(&b, " chanCap=%d", o.ChanCap)
 		}
 	}
 	if o.Sched != nil {
@@ -272,6 +276,10 @@ type res07 struct {
 	Retained []any  // values returned to the caller, to be re-inspected later
 	Buffer   []byte // a result documented as the subject's own buffer: valid until the next call on that subject
 	Volatile bool   // result documented as reusable (Reuse option): not re-inspected
+	cleanup  func() // ends the consumer of a bounded result channel, whichever way the call ended
+	Snap     string // snapshot of Retained when exec returned (history pass)
+	Late     int    // documents that reached a bounded result channel only after the call had returned
+	Aliased  string // the returned values changed when the caller overwrote its input buffer (was -> now)
 	Err      error  // the error the call returned: a returned value like any other, re-inspected later
 }
 
@@ -564,7 +572,7 @@ func drawTheme07(t *rapid.T) *theme07 {
 }
 
 func drawOp07(t *rapid.T, faults bool, th *theme07) *op07 {
-	o := &op07{Conv: -1, PanicAt: -1, FailCall: -1}
+	o := &op07{Conv: -1, PanicAt: -1, FailCall: -1, ChanCap: -1}
 	write := sim.Intn(t, 5, "write?") >= 3
 	switch th.kind {
 	case 1:
@@ -676,6 +684,9 @@ func drawOp07(t *rapid.T, faults bool, th *theme07) *op07 {
 	}
 	if !strings.Contains(o.Subj, "Validator") && !strings.Contains(o.Subj, "Tokenizer") && o.Fn != "Unmarshal" && o.Fn != "MustParse" {
 		o.Mode = sim.Weighted(t, "mode", 4, 2, 1)
+		if o.Mode == modeChan && sim.Intn(t, 3, "boundedchan?") == 0 {
+			o.ChanCap = sim.Intn(t, 3, "chancap")
+		}
 		if o.Subj != "gen.Parser" && sim.Intn(t, 4, "conv?") == 3 {
 			o.Conv = sim.Intn(t, 3, "conv")
 		}
@@ -701,7 +712,7 @@ var convMethods = []ojg.NumConvMethod{ojg.NumConvNone, ojg.NumConvFloat64, ojg.N
 type callerPanic struct{}
 
 // parseArgs builds the variadic args of a parse call and the collector of what was delivered.
-func (o *op07) parseArgs(isGen bool, r *res07) (args []any, collect func() []any) {
+func (o *op07) parseArgs(isGen bool, r *res07, bounded bool) (args []any, collect func() []any) {
 	n := 0
 	switch o.Mode {
 	case modeCB:
@@ -730,6 +741,12 @@ func (o *op07) parseArgs(isGen bool, r *res07) (args []any, collect func() []any
 		collect = func() []any { return docs }
 	case modeChan:
 		if isGen {
+			if bounded {
+				ch := make(chan gen.Node, o.ChanCap)
+				args = append(args, ch)
+				collect = boundedChan(ch, r, nodeAny)
+				break
+			}
 			ch := make(chan gen.Node, len(o.Input)+2)
 			args = append(args, ch)
 			collect = func() []any {
@@ -744,6 +761,12 @@ func (o *op07) parseArgs(isGen bool, r *res07) (args []any, collect func() []any
 				}
 			}
 		} else {
+			if bounded {
+				ch := make(chan any, o.ChanCap)
+				args = append(args, ch)
+				collect = boundedChan(ch, r, func(v any) any { return v })
+				break
+			}
 			ch := make(chan any, len(o.Input)+2)
 			args = append(args, ch)
 			collect = func() []any {
@@ -765,6 +788,31 @@ func (o *op07) parseArgs(isGen bool, r *res07) (args []any, collect func() []any
 	if o.BadOpt {
 		args = append(args, struct{ notAnOption int }{5})
 	}
+	return
+}
+
+// boundedChan: the result channel is served by the simulator's consumer (sim.Consumer): documents are taken from it only
+// when the call is stalled in a send, and what has not arrived by the time the call returns was not delivered by it.
+func boundedChan[T any](ch chan T, r *res07, conv func(T) any) (collect func() []any) {
+	c := sim.StartConsumer(ch)
+	var docs []any
+	finished := false
+	collect = func() []any {
+		if finished {
+			return docs
+		}
+		finished = true
+		got, stalls := c.Finish()
+		for _, v := range got {
+			docs = append(docs, conv(v))
+		}
+		if stalls > 0 {
+			sim.ProbeN("producer_stalled_on_full_channel", stalls)
+		}
+		r.Late = sim.DrainStray(ch)
+		return docs
+	}
+	r.cleanup = func() { collect() }
 	return
 }
 
@@ -823,6 +871,9 @@ func canonErr(err error, docs []any) string {
 // exec runs one operation in world w. The caller's input buffer is overwritten afterwards.
 func (o *op07) exec(w *world07) (r *res07) {
 	r = &res07{}
+	// a bounded result channel with the simulator as its consumer - in the history pass only: the fresh instance delivers into a
+	// channel with room for everything, so that the capacity of the caller's channel is part of what must not matter
+	bounded := o.ChanCap >= 0 && !w.fresh
 	// the simulated streams know the goroutine of the call they are handed to and are told when it has returned (sim/foreign.go)
 	var owned []*sim.SimWriter
 	defer func() {
@@ -844,6 +895,9 @@ func (o *op07) exec(w *world07) (r *res07) {
 	}
 	buf := append([]byte(nil), o.Input...)
 	defer func() {
+		if r.cleanup != nil {
+			defer r.cleanup()
+		}
 		if p := recover(); p != nil {
 			switch p.(type) {
 			case callerPanic:
@@ -863,8 +917,21 @@ func (o *op07) exec(w *world07) (r *res07) {
 		if o.HasBoom {
 			r.Aborted = true // the injected Simplifier panic aborted the write, however the API surfaced it
 		}
+		// the caller reuses its buffer: what the call returned must not alias it
+		// (judged in the history pass, where the snapshot is needed anyway)
+		var before string
+		judged := len(r.Retained) > 0 && !w.fresh
+		if judged {
+			before = snapshot(r.Retained)
+		}
 		for i := range buf {
-			buf[i] = 0xAA // the caller reuses its buffer: returned values must not alias it
+			buf[i] = 0xAA
+		}
+		if judged {
+			r.Snap = snapshot(r.Retained)
+			if r.Snap != before {
+				r.Aliased = clip(before) + " -> " + clip(r.Snap)
+			}
 		}
 	}()
 	finishParse := func(v any, err error, collect func() []any) {
@@ -881,7 +948,7 @@ func (o *op07) exec(w *world07) (r *res07) {
 	switch o.Subj {
 	case "oj.Parser", "pkg.oj":
 		if o.IsParse {
-			args, collect := o.parseArgs(false, r)
+			args, collect := o.parseArgs(false, r, bounded)
 			var v any
 			var err error
 			switch {
@@ -923,7 +990,7 @@ func (o *op07) exec(w *world07) (r *res07) {
 			return
 		}
 	case "gen.Parser":
-		args, collect := o.parseArgs(true, r)
+		args, collect := o.parseArgs(true, r, bounded)
 		w.genP.Reuse = o.Reuse
 		var v gen.Node
 		var err error
@@ -936,7 +1003,7 @@ func (o *op07) exec(w *world07) (r *res07) {
 		return
 	case "sen.Parser", "pkg.sen":
 		if o.IsParse {
-			args, collect := o.parseArgs(false, r)
+			args, collect := o.parseArgs(false, r, bounded)
 			var v any
 			var err error
 			switch {
@@ -1243,7 +1310,7 @@ func snapshot(vals []any) string {
 }
 
 func propC07(cx *sim.Ctx) {
-	sim.Declare([]string{"pool_get_reused_most_recent", "pool_get_reused_other", "pool_get_new", "pool_put_dropped", "fault_fired_only_in_reference", "io_on_a_goroutine_of_the_library"}, []string{"reader_error", "writer_error", "caller_callback_panic", "simplifier_panic", "process_restart", "late_delivery_after_abandoned_call"})
+	sim.Declare([]string{"pool_get_reused_most_recent", "pool_get_reused_other", "pool_get_new", "pool_put_dropped", "fault_fired_only_in_reference", "io_on_a_goroutine_of_the_library", "producer_stalled_on_full_channel"}, []string{"reader_error", "writer_error", "caller_callback_panic", "simplifier_panic", "process_restart", "late_delivery_after_abandoned_call"})
 	t := cx.T
 	c := &case07{RestartAt: -1}
 	c.Faults = sim.Intn(t, 3, "faultconfig") > 0
@@ -1390,6 +1457,12 @@ func propC07(cx *sim.Ctx) {
 		case r.Canon != refRes[i].Canon:
 			cx.Fail(fmt.Sprintf("C07/freshness/%s.%s", o.Subj, o.Fn), fmt.Sprintf("op %d on the reused instance: %s ; fresh: %s", i, clip(r.Canon), clip(refRes[i].Canon)), attrs)
 		}
+		if r.Aliased != "" {
+			cx.Fail(fmt.Sprintf("C07/input-aliasing/%s.%s", o.Subj, o.Fn), fmt.Sprintf("what op %d returned changed when the caller overwrote its own input buffer: %s", i, r.Aliased), attrs)
+		}
+		if r.Late > 0 {
+			cx.Fail(fmt.Sprintf("C07/late-delivery/%s.%s", o.Subj, o.Fn), fmt.Sprintf("op %d returned while %d document(s) were still on their way to the result channel (capacity %d)", i, r.Late, o.ChanCap), attrs)
+		}
 		if strings.HasPrefix(r.Canon, "error") {
 			prevAbortOrDiff[o.Subj] = true
 		}
@@ -1420,7 +1493,10 @@ func propC07(cx *sim.Ctx) {
 		}
 		// (an aborted call is not judged for freshness, but what it did hand over before it failed is the caller's)
 		if !r.Volatile && len(r.Retained) > 0 {
-			retained = append(retained, kept{op: i, vals: r.Retained, snap: snapshot(r.Retained)})
+			if r.Snap == "" {
+				r.Snap = snapshot(r.Retained)
+			}
+			retained = append(retained, kept{op: i, vals: r.Retained, snap: r.Snap})
 		}
 		if r.Err != nil { // (also of an aborted call, and whatever the Reuse option says about the documents)
 			v := []any{keptErr{r.Err}}
